@@ -55,16 +55,20 @@ Definition FirstNewest (l : list dentry) (e : dentry) : Prop :=
   exists l1 l2, l = l1 ++ e :: l2 /\ (forall x, In x l1 -> (de_mtime x < de_mtime e)%N) /\
                 (forall x, In x l2 -> (de_mtime x <= de_mtime e)%N).
 
-(* what the property needs of the entry an offline request for [req] is answered from *)
+(* what the property needs of the entry an offline request for [req] is answered from: an entry
+   of the directory that holds ALL the bytes of one served response, of the file asked for, and
+   no ADVERTISED entry (a cached revision; temporary files are not cache entries) is newer *)
 Definition OfflineSound (req : string) (l : list dentry) (e : dentry) : Prop :=
-  Newest l e /\ de_whole e = true /\ de_file e = req.
+  In e l /\ (forall x, In x l -> de_adv x = true -> (de_mtime x <= de_mtime e)%N) /\
+  de_whole e = true /\ de_file e = req.
 
 Definition dentry_eqb (a b : dentry) : bool :=
   String.eqb (de_name a) (de_name b) && N.eqb (de_mtime a) (de_mtime b) && Bool.eqb (de_adv a) (de_adv b) &&
   String.eqb (de_file a) (de_file b) && String.eqb (de_rev a) (de_rev b) && Bool.eqb (de_whole a) (de_whole b).
 
 Definition validate_offline (req : string) (l : list dentry) (e : dentry) : list string :=
-  tag_if (negb (List.existsb (dentry_eqb e) l && List.forallb (fun x => N.leb (de_mtime x) (de_mtime e)) l))
+  tag_if (negb (List.existsb (dentry_eqb e) l &&
+                List.forallb (fun x => negb (de_adv x) || N.leb (de_mtime x) (de_mtime e)) l))
          "viol:offline-pick-not-newest" ++
   tag_if (negb (de_whole e)) "viol:offline-opens-partial-entry" ++
   tag_if (negb (String.eqb (de_file e) req)) "viol:offline-entry-of-another-file".
